@@ -269,6 +269,120 @@ class _FilterCanon(ast.NodeTransformer):
         return node
 
 
+def key_derivation_clause(ctx, func, sl):
+    """KEY-DERIVATION: for every field the specification entry selects, each key template of the entry yields one key value under the
+    same key: re.sub(<entry name>, template, <field name>) exactly when regex is on and the template is a string, the template itself
+    otherwise; the fresh mapping is stored as the field's keys.  Decided path by path over the body of the loop over the templates."""
+    run, repo = ctx.run, ctx.repo
+    from sa.pathvals import subst
+    spec = sl.target.id if isinstance(sl.target, ast.Name) else None
+    # names bound exactly once inside the specification loop (original_key_values = u_field['keys'])
+    cnt, val = {}, {}
+    for n in ast.walk(sl):
+        if isinstance(n, ast.Assign) and len(n.targets) == 1 and isinstance(n.targets[0], ast.Name):
+            cnt[n.targets[0].id] = cnt.get(n.targets[0].id, 0) + 1
+            val[n.targets[0].id] = n.value
+        elif isinstance(n, (ast.For, ast.comprehension)):
+            for t_ in ast.walk(n.target):
+                if isinstance(t_, ast.Name):
+                    cnt[t_.id] = cnt.get(t_.id, 0) + 2
+    once = {k: v for k, v in val.items() if cnt[k] == 1}
+    keys_pat = "%s['keys']" % spec
+    found = 0
+    for fl in ast.walk(sl):
+        if not (isinstance(fl, ast.For) and isinstance(fl.target, ast.Name)):
+            continue
+        # the same derivation written as one expression: X = {k: V for k... in entry keys}  is  D = {}; for k...: D[k] = V; X = D
+        nb = []
+        for st_ in fl.body:
+            dc = st_.value if isinstance(st_, ast.Assign) and len(st_.targets) == 1 else None
+            if isinstance(dc, ast.DictComp) and len(dc.generators) == 1 and not dc.generators[0].ifs:
+                def _store(v_):
+                    return ast.Assign(targets=[ast.Subscript(value=ast.Name(id='_keys_', ctx=ast.Load()), slice=dc.key, ctx=ast.Store())],
+                                      value=v_)
+                body_ = [ast.If(test=dc.value.test, body=[_store(dc.value.body)], orelse=[_store(dc.value.orelse)])] \
+                    if isinstance(dc.value, ast.IfExp) else [_store(dc.value)]
+                new_ = [ast.Assign(targets=[ast.Name(id='_keys_', ctx=ast.Store())], value=ast.Dict(keys=[], values=[])),
+                        ast.For(target=dc.generators[0].target, iter=dc.generators[0].iter, body=body_, orelse=[], type_comment=None),
+                        ast.Assign(targets=st_.targets, value=ast.Name(id='_keys_', ctx=ast.Load()))]
+                for n_ in new_:
+                    ast.copy_location(n_, st_)
+                    ast.fix_missing_locations(n_)
+                    for c_ in ast.walk(n_):
+                        c_._parent = getattr(c_, '_parent', fl)
+                nb += new_
+            else:
+                nb.append(st_)
+        fl.body = nb
+        for kl in fl.body:
+            if not isinstance(kl, ast.For):
+                continue
+            it = subst(kl.iter, once)
+            items = match_expr('__D.items()', it)
+            src = items['__D'] if items is not None else it
+            if u(src) != keys_pat:
+                continue
+            found += 1
+            fld = fl.target.id
+            if items is not None and isinstance(kl.target, ast.Tuple) and len(kl.target.elts) == 2:
+                key, tmpl = kl.target.elts[0].id, kl.target.elts[1].id
+            elif items is None and isinstance(kl.target, ast.Name):
+                key, tmpl = kl.target.id, "%s[%s]" % (keys_pat, kl.target.id)
+            else:
+                run.fail('UNP', where(repo, kl), func.qualname, u(kl.target), 'the loop over the key templates does not bind the key')
+                continue
+            want_sub = 're.sub(%s[\'name\'], %s, %s[\'name\'])' % (spec, tmpl, fld)
+            for p in Enumerator(where=func.qualname).body_paths(kl):
+                pv = PathValues(p, env=dict(once))
+                g_regex = g_str = None
+                other = []
+                atoms = []
+                for t, pol in pv.guards:
+                    t, pol = norm_guard(t, pol)
+                    if isinstance(t, ast.BoolOp) and isinstance(t.op, ast.And) and pol:
+                        atoms += [norm_guard(v_, True) for v_ in t.values]
+                    elif isinstance(t, ast.BoolOp) and isinstance(t.op, ast.Or) and not pol:
+                        atoms += [norm_guard(v_, False) for v_ in t.values]
+                    elif isinstance(t, ast.BoolOp) and isinstance(t.op, ast.And) and all(
+                            pseudo(v_) == 'regex' or match_expr('isinstance(%s, str)' % tmpl, v_) is not None for v_ in t.values):
+                        pass        # not (regex and isinstance(template, str)): the complement of the substitution case
+                    else:
+                        atoms.append((t, pol))
+                for t, pol in atoms:
+                    if pseudo(t) == 'regex':
+                        g_regex = pol
+                    elif match_expr('isinstance(%s, str)' % tmpl, t) is not None:
+                        g_str = pol
+                    else:
+                        other.append(u(t))
+                stores = [c_ for o_, c_ in pv.stmts if isinstance(c_, ast.Assign) and isinstance(c_.targets[0], ast.Subscript)
+                          and u(c_.targets[0].slice) == key]
+                ok = len(stores) == 1 and not other and p.term in (FALL, CONTINUE)
+                if ok:
+                    v = stores[0].value
+                    if g_regex is True and g_str is True:
+                        ok = match_expr(want_sub, v) is not None
+                    else:
+                        ok = u(v) == tmpl
+                run.check(ok, 'UNP', where(repo, kl), func.qualname,
+                          'keys[key] = re.sub(entry name, template, field name) iff regex and the template is a string, else the template',
+                          'a derived key value is not the back-reference substitution of its template against the field name exactly when '
+                          'regex is on and the template is a string (or a key is skipped): the rows unpivoted from different columns '
+                          'carry wrong or indistinguishable keys', detail=str(p.describe()))
+            # the mapping filled by the loop is fresh per field and becomes the field's keys
+            dn = set(pseudo(c_.targets[0].value) for c_ in ast.walk(kl) if isinstance(c_, ast.Assign)
+                     and isinstance(c_.targets[0], ast.Subscript) and u(c_.targets[0].slice) == key)
+            okd = len(dn) == 1
+            if okd:
+                d_ = dn.pop()
+                i_k = fl.body.index(kl)
+                okd = any(match_stmt('%s = {}' % d_, s_) is not None or match_stmt('%s = dict()' % d_, s_) is not None for s_ in fl.body[:i_k]) \
+                    and any(match_stmt("%s['keys'] = %s" % (fld, d_), s_) is not None for s_ in fl.body[i_k + 1:])
+            run.check(okd, 'UNP', where(repo, kl), func.qualname, "fresh mapping per field; field['keys'] = mapping",
+                      'the derived key values are not collected in a fresh mapping per field and stored as that field\'s keys')
+    run.floor('UNP', found, 1, 'loops deriving the key values of an unpivoted field')
+
+
 def unpivot_clauses(ctx):
     run, repo = ctx.run, ctx.repo
     run.rule('UNP', 'UNPIVOT: for each input row (outer loop) and each unpivoted field (inner loop, in specification order) exactly '
@@ -429,6 +543,8 @@ def unpivot_clauses(ctx):
             run.check(ok, 'UNP', where(repo, sl), func.qualname, what[0], what[1])
         run.check(seen_modes == {True, False}, 'UNP', where(repo, sl), func.qualname, 'both regex modes',
                   'the regex switch no longer selects between pattern and literal field names')
+    if spec_loops:
+        key_derivation_clause(ctx, func, spec_loops[0])
     if mf is not None:
         clo = returned_closure(ctx, mf)
         value = None
